@@ -3,10 +3,12 @@ import os
 from . import common, tlc, export, sasm
 
 
-def write_batch(d, name, root, cases, w, defs='', consts=None, extra_cfg=''):
+def write_batch(d, name, root, cases, w, defs=None, consts=None, extra_cfg=''):
     progs_txt, groups = export.export_batch(cases)
+    if defs is None:
+        defs = 'MCSources == <<>>\nMCCases == <<>>'
     with open(os.path.join(d, 'BatchData.tla'), 'w') as f:
-        f.write('---- MODULE BatchData ----\nEXTENDS SphinxCode\nMCProgs == %s\n%s\n====\n' % (progs_txt, defs))
+        f.write('---- MODULE BatchData ----\nEXTENDS SphinxCode, HiDIR\nMCProgs == %s\n%s\n====\n' % (progs_txt, defs))
     with open(os.path.join(d, name + '.tla'), 'w') as f:
         f.write('---- MODULE %s ----\nEXTENDS %s\n====\n' % (name, root))
     consts = dict(consts or {})
@@ -43,6 +45,106 @@ def run_machine(cases, w=2, monitors=True, max_level=4000, timeout=900, workers=
             res[c.key] = {'status': p[5], 'halted': v['halted'], 'fault': v['fault'], 'alarm': v['alarm'],
                           'pc': p[6], 'level': p[7], 'obs': (export.decode_events(obs['ev']), obs['end'])}
         return res, r
+    finally:
+        if not keep:
+            common.rm(d)
+
+
+class Item:
+    """One case for Refine: a source text, a build configuration and an argument vector."""
+    def __init__(self, key, src, args=(), w=2, s=500, unchecked=False, opt=None, meta=None):
+        self.key = key
+        self.src = src
+        self.args = list(args)
+        self.w = w
+        self.s = s
+        self.unchecked = unchecked
+        self.opt = dict(opt or {})
+        self.meta = meta or {}
+        self.skip = None       # reason when the case could not be prepared
+        self.result = None
+
+
+def prepare(items, w):
+    """Compile (working tree) and translate every item; returns (export cases, defs text).  Items that are
+    rejected by the compiler or outside the modelled envelope get .skip set."""
+    from . import ir, hidc_api
+    compiled = {}
+    translated = {}
+    sources = []
+    cases_txt = []
+    ecases = []
+    for it in items:
+        ck = (it.src, it.w, it.s, it.unchecked, tuple(sorted(it.opt.items())))
+        if ck not in compiled:
+            try:
+                compiled[ck] = hidc_api.compile_src(it.src, w=it.w, s=it.s, unchecked=it.unchecked, **it.opt)
+            except hidc_api.Rejected as e:
+                compiled[ck] = e
+            except hidc_api.Crashed as e:
+                compiled[ck] = e
+        if isinstance(compiled[ck], Exception):
+            it.skip = 'compile: %s' % compiled[ck]
+            continue
+        tk = (it.src, it.w, tuple(sorted(it.opt.items())))
+        if tk not in translated:
+            try:
+                tr = ir.Translator(it.src, w=it.w, **it.opt)
+                sources.append(tr.source_record())
+                translated[tk] = (tr, len(sources))
+            except (ir.Unsupported, hidc_api.Rejected) as e:
+                translated[tk] = e
+        if isinstance(translated[tk], Exception):
+            it.skip = 'translate: %s' % translated[tk]
+            continue
+        tr, sidx = translated[tk]
+        try:
+            crec = ir.case_record(tr, sidx, it.args)
+            ec = export.Case(it.key, compiled[ck], it.args, meta={'hcase': len(cases_txt) + 1})
+            ec.program = sasm.Program(ec.lines, ec.args)
+        except (ir.Unsupported, sasm.AsmError, ValueError) as e:
+            it.skip = 'case: %s' % e
+            continue
+        cases_txt.append(crec)
+        it.meta['features'] = sorted(tr.features)
+        ecases.append(ec)
+    defs = 'MCSources == %s\nMCCases == %s' % (tlc.tla(sources), tlc.tla(cases_txt))
+    return ecases, defs
+
+
+def run_refine(items, w=2, monitors=True, max_level=6000, max_alloc=256, timeout=1200, workers=None, keep=None):
+    """Run items (all of word size w) on spec/Refine.tla.  Sets it.result for every conclusive or inconclusive
+    item: dict(status, hst, agree, halted, fault, alarm, level, wrap, mobs, hobs) or None (out of fuel)."""
+    d = keep or common.scratch('hvref_')
+    try:
+        ecases, defs = prepare(items, w)
+        if not ecases:
+            return None
+        write_batch(d, 'Batch', 'Refine', ecases, w, defs=defs,
+                    consts={'Monitors': 'TRUE' if monitors else 'FALSE', 'MaxLevel': max_level, 'MaxAlloc': max_alloc})
+        r = tlc.run(d, 'Batch', timeout=timeout, workers=workers)
+        if (r.errors and not r.prints) or (not r.prints and not r.timed_out):
+            raise common.Machinery('TLC failed: %s\n%s' % (r.errors[:3], r.out[-2500:]))
+        by = {}
+        for p in r.prints:
+            if len(p) >= 12 and p[1] == 'R':
+                by[(p[2], p[3])] = p
+        bykey = {c.key: c for c in ecases}
+        for it in items:
+            if it.skip:
+                continue
+            c = bykey[it.key]
+            p = by.get((c.prog, c.inp))
+            if p is None:
+                it.result = None
+                continue
+            v = p[4]
+            obs = p[11]
+            dec = lambda o: (export.decode_events(o['ev']), o['end'])
+            it.result = {'status': p[5], 'pc': p[6], 'level': p[7], 'hst': p[8], 'agree': p[9], 'wrap': p[10],
+                         'halted': v['halted'], 'fault': v['fault'], 'alarm': v['alarm'],
+                         'mobs': dec(obs[0]), 'hobs': dec(obs[1]) if len(obs) > 1 else None}
+        return r
     finally:
         if not keep:
             common.rm(d)
